@@ -32,15 +32,25 @@ Proof.
   - rewrite strip0_cons, IH, Zmod_mod. reflexivity.
 Qed.
 
+Lemma strip0_pdivsc : forall p a c, strip0 p (pdivsc p a c) = pdivsc p a c.
+Proof. intros. unfold pdivsc. apply strip0_idem. Qed.
 Lemma strip0_pdivv : forall p a b, strip0 p (pdivv p a b) = pdivv p a b.
-Proof. intros. unfold pdivv. apply strip0_idem. Qed.
+Proof.
+  intros. unfold pdivv. destruct (pge p a b); [|reflexivity].
+  destruct (pc p b); [apply strip0_pdivsc | apply strip0_idem].
+Qed.
+Lemma length_ptrunc : forall n (a : poly), length (ptrunc n a) = n.
+Proof. intros. unfold ptrunc. rewrite firstn_length, app_length, repeat_length. lia. Qed.
 
 Ltac prun :=
   cbv [freshP pexec pbind pret pload pstor pupd pskip pmk4 loc_eqb Nat.eqb fst snd orb
-       V_assign V_add V_sub V_neg V_addin V_subin V_negin V_div V_reversein V_mul_body V_sqr_body V_reverse_copy
+       V_assign V_add V_sub V_neg V_addin V_subin V_negin V_reversein V_mul_body V_sqr_body V_reverse_copy
+       V_zero V_divsc V_coef0 V_resize V_reverse_copy_n V_invmodpowx_body V_multrunc P_reverse_n P_invmodpowx
+       P_div_gen P_div pdivv
        P_mul P_sqr P_reverse P_mulin P_axpy P_axmy P_maxpy P_axpyin P_maxpyin P_axmyin P_divmod P_mod poly_op].
 Ltac pstep := repeat (progress (prun; cbn [Pos.eqb]; pos_facts; cbv iota)).
-Ltac psolve := pstep; repeat (first [split_cond | split_pair]; pstep); rewrite ?strip0_idem, ?strip0_pdivv; try reflexivity.
+Ltac psolve := pstep; repeat (first [split_cond | split_pair]; pstep);
+               rewrite ?length_ptrunc, ?strip0_idem, ?strip0_pdivsc, ?strip0_pdivv; try reflexivity.
 
 (* ---- operation numbers of ModelPoly.poly_op: 0 mul 1 sqr 2 reverse 4 axpy 5 axmy 6 maxpy 10 mod: destination only
         written; 3 mulin 7 axpyin 8 maxpyin 9 axmyin: destination also read.  (11 gcd: below.) *)
@@ -82,6 +92,18 @@ Proof.
   cbn [poly_op] in H. rewrite H. apply fresh_mul_value.
 Qed.
 
+(* ---- div(Q,A,B): Q may be A, B or both; the value is the one of pdivv (the same three routes on values), the
+        hazards of reverse / invmodpowx / the iterator product are never reached *)
+Definition Poly_div_alias_free : Prop :=
+  forall p (h : pstore) (q a b : positive),
+    let h' := pexec (P_div p (U q) (U a) (U b)) h in
+    h' (U q) = pdivv p (h (U a)) (h (U b)) /\ (forall l, l <> q -> h' (U l) = h (U l)).
+Lemma poly_div_alias_free : Poly_div_alias_free.
+Proof.
+  intros p h q a b. cbv zeta. split.
+  - split_locs; psolve.
+  - intros l L. split_locs; psolve.
+Qed.
 (* ---- divmod(Q,R,A,B): two outputs (distinct objects of each other), each may be A or B *)
 Definition divmod_val (p : Z) (a b : poly) : poly * poly :=
   (pdivv p a b, strip0 p (psubv p a (strip0 p (pmulv p (pdivv p a b) b)))).
@@ -178,6 +200,21 @@ Proof.
   exists (pst [(1%positive, [71; 31; 91; 1]); (2%positive, [66; 45; 76; 6; 3; 69; 1])]), 2%positive, 1%positive, 2%positive.
   vm_compute. discriminate.
 Qed.
+(* repair 1eb01b7 undone (the divisor B[0] read through a reference after Q has been written): div(B, A, B) with
+   A = 6X + 6, B = 2 over GF(101) leaves 2X + 3 instead of 3X + 3 *)
+Lemma poly_div_b0_reverted_refuted :
+  exists (h : pstore) (q a b : positive),
+    pexec (P_div_b0_reverted 101 (U q) (U a) (U b)) h (U q) <> pdivv 101 (h (U a)) (h (U b)).
+Proof.
+  exists (pst [(1%positive, [6; 6]); (2%positive, [2])]), 2%positive, 1%positive, 2%positive.
+  vm_compute. discriminate.
+Qed.
+Example poly_div_example :       (* div(B,A,B): constant divisor; div(A,A,B), div(B,A,B): fast division *)
+  let h := pst [(1%positive, [6; 6]); (2%positive, [2]); (3%positive, [66; 45; 76; 6; 3; 69; 1]); (4%positive, [71; 31; 91; 2])] in
+  (pexec (P_div 101 (U 2) (U 1) (U 2)) h (U 2), pexec (P_div_b0_reverted 101 (U 2) (U 1) (U 2)) h (U 2),
+   pexec (P_div 101 (U 3) (U 3) (U 4)) h (U 3), pexec (P_div 101 (U 4) (U 3) (U 4)) h (U 4))
+  = ([3; 3], [3; 2], [53; 2; 37; 51], [53; 2; 37; 51]).
+Proof. vm_compute. reflexivity. Qed.
 Example poly_gcd_example :
   pexec (P_gcd 101 (U 2) (U 1) (U 2)) (pst [(1%positive, [71; 31; 91; 1]); (2%positive, [66; 45; 76; 6; 3; 69; 1])]) (U 2)
   = [29; 60; 89].
